@@ -17,3 +17,5 @@ import SamVerif.Props.C08
 #print axioms SamVerif.Fmt.minus_not_merged
 #print axioms SamVerif.Fmt.roundtrip_expr_partial
 #print axioms SamVerif.Fmt.paren_insensitive
+#print axioms SamVerif.FmtPat.roundtrip_pattern
+#print axioms SamVerif.FmtPat.roundtrip_pattern_side_conditions
